@@ -116,3 +116,48 @@ func PEMEntry(spec KeySpec, key crypto.Signer) []byte {
 
 	return out
 }
+
+// PEMChainEntry renders one key (PKCS#8) followed by its certificate and the certificate of the CA that issued it. The
+// leaf may live longer than its issuer (leafNotAfter after caNotAfter): the order of the chain in the file is leaf, CA.
+func PEMChainEntry(kid string, key, caKey crypto.Signer, notBefore, leafNotAfter, caNotAfter time.Time) []byte {
+	der, err := x509.MarshalPKCS8PrivateKey(key)
+	if err != nil {
+		panic(err)
+	}
+
+	blk := &pem.Block{Type: "PRIVATE KEY", Bytes: der}
+	if kid != "" {
+		blk.Headers = map[string]string{"X-Key-ID": kid}
+	}
+
+	out := pem.EncodeToMemory(blk)
+
+	ca := &x509.Certificate{
+		SerialNumber: big.NewInt(1001), Subject: pkix.Name{CommonName: "verif chain CA " + kid}, NotBefore: notBefore, NotAfter: caNotAfter,
+		KeyUsage: x509.KeyUsageCertSign, BasicConstraintsValid: true, IsCA: true,
+	}
+
+	caDER, err := x509.CreateCertificate(rand.Reader, ca, ca, caKey.Public(), caKey)
+	if err != nil {
+		panic(err)
+	}
+
+	caCert, err := x509.ParseCertificate(caDER)
+	if err != nil {
+		panic(err)
+	}
+
+	leaf := &x509.Certificate{
+		SerialNumber: big.NewInt(1002), Subject: pkix.Name{CommonName: "verif chain leaf " + kid}, NotBefore: notBefore, NotAfter: leafNotAfter,
+		KeyUsage: x509.KeyUsageDigitalSignature,
+	}
+
+	leafDER, err := x509.CreateCertificate(rand.Reader, leaf, caCert, key.Public(), caKey)
+	if err != nil {
+		panic(err)
+	}
+
+	out = append(out, pem.EncodeToMemory(&pem.Block{Type: "CERTIFICATE", Bytes: leafDER})...)
+
+	return append(out, pem.EncodeToMemory(&pem.Block{Type: "CERTIFICATE", Bytes: caDER})...)
+}
